@@ -13,13 +13,16 @@ def check(tier, seed):
     specs = (specs_evals(tier, algs=("nonhermitian",)) + specs_wiring(tier, algs=("nonhermitian",)) + specs_product(tier) + specs_index(tier)
              + specs_solver(tier) + specs_masks(tier))
     d.add_units(fold_canaries(run_units(specs)))
-    d.add_lean(LEAN + ["PV.Inst.filt", "PV.Inst.blocks", "PV.Inst.unperturbed", "PV.Inst.gapped", "PV.Inst.trivNonHermEqs"])
+    d.add_lean(LEAN + ["PV.Inst.filt", "PV.Inst.blocks", "PV.Inst.unperturbed", "PV.Inst.gapped", "PV.Inst.trivNonHermEqs",
+                       "PV.Model.filtered", "PV.Model.blocks", "PV.Model.liftNH", "PV.MatrixModel.coeffUnperturbedNH", "PV.MatrixModel.nh_theorems"])
     d.add_callsite_witness("callsite:nonhermitian/H0-commutes-with-kept-part-of-U'", "bd_battery.py", "nh_finding",
                            "hypothesis of PV.NH.X_comm / main_similarity: H_0 commutes with the kept part of U'. block_diagonalize(hermitian=False) "
                            "does not establish it; the witness problem is replayed on every run")
     d.assumptions += [LEAN_SETTING_NOTE,
                       "the similarity theorems are proved under the extra hypothesis  H_0 (S U') = (S U') H_0 ; inverse and gauge theorems need no hypothesis",
-                      "no symmetry of the masks is used (asymmetric masks are covered)"]
+                      "no symmetry of the masks is used (asymmetric masks are covered)",
+                      "the non-Hermitian theorems use the adjoint-free part of the setting only (UnperturbedNH): complex energies are covered; PV.MatrixModel.nh_theorems "
+                      "states them for matrices of multivariate power series over any field, with entry masks and energies differing on eliminated pairs"]
     d.assumptions += ["Hermitian-limit clause (PV.C05_hermitian_limit) and uniqueness (PV.nh_unique) use Gapped(H0) (energies of eliminated pairs differ: mask / solver obligations of this run) "
                       "and, for the non-Hermitian side, the same commutation hypothesis as the similarity theorems"]
     d.not_decided += [
